@@ -18,7 +18,7 @@ import importlib.util, json, os
 import vcommon as V
 
 META = dict(
-    text="Lean 4. Proved about the executable model of the VM's scope machinery (Model/VM.lean: LexicalLookupSymbol with its three stages, LookupSymbolUntilFunction, the parent chain of closures, NewClosing, AddScope/AddFuncScope/RemoveScope/CreateClosure, and the whole mutual block Run/exec/CallResolved/Apply/Force around them), for all states, programs, histories and fuel: (1) shadowing_innermost_first / lookup_none_iff — a lookup returns the first scope binding the name along an explicit search list (live scopes of the current activation down to its function scope, then the captured scopes of the running closure and of its creators, then the template's captured scopes); (2) no_dynamic_leak / never_a_callers_local — the scope found is above the innermost live function boundary or captured, never a caller's local (a live scope below the boundary that was not captured); createClosure_captures / closure_captures_no_caller_local — CreateClosure stores exactly the part of the live stack above the boundary; (3) fresh_activation — AddScope/AddFuncScope push a scope id held by no stack, closure or lazy argument, with no variables, from the invariant WF (all ids below the table size) which every function of the VM preserves (wf_preserved, wf_reachable, by induction on fuel over the 13 mutually recursive functions and over the 8 mutually recursive generator functions); function code starts with AddFuncScope and a self tail call re-enters at instruction 0; (4) capture_by_reference / shared_update — closures created while the live stack is the same hold the same scope ids, an assignment through one is read by the other; (5) capture_outlives / pop_keeps_cells — no function of the VM removes a scope cell, changes a boundary flag, or changes the captured stack or parent of an existing closure; (6) lookup_sound — under the explicit simulation relation Sim between a VM state and a reference environment the two lookups agree; per instruction, preservation of Sim is proved for entering a scope only (sim_preserved_partial; SimPreservedFull stays a visible Prop); (7) Props/C03Sim.lean, on the fragment for which the C02 simulation proofs hold (fn/defn anywhere except inside call operands, closures capturing and assigning locals, functions as values, recursion, rest parameters, self tail calls, break/continue, lazy parameters and force, apply/map): lexical_scoping_on_fragment — the VM model computes what the reference evaluator (closure = code + frame pointer at creation, fresh frame per activation/let/loop, static-chain lookup) computes, value / error class / trace, for programs of every size — with the five clauses of the property as corollaries on program families parameterised by the values (free_variables_see_creation_site, closures_of_one_activation_share, fresh_variables_per_activation, captured_outlives_activation, tail_call_gets_fresh_scope); simX_of_relF — the relation Sim.RelF those proofs maintain implies Sim up to the order of bindings in a frame, so sim_preserved_on_fragment: after the whole code of any expression of the fragment (scopes left, def/set, closures made, calls, returns, tail calls, apply/map, lazy arguments) the states are related again and the lookups agree. The model is tied to the Go code by channel `scope`: histories of program texts against one interpreter, every name (ints, closures, makers, arrays of closures, loop counters, parameters, defn names) drawn from ONE pool of 2-3 names with a static type environment, 50 shape templates under colliding name assignments, and an exhaustive small scope (all programs of up to three nested scope constructs let/letseq/call/defn/newScope/for/def-in-fn/self-tail-call over the names a b, with capture at every level, mutation after capture, observation from the innermost point and after everything returned); implementation vs VM model on class/value/trace/four stack depths, implementation vs reference evaluator on class/value/trace. A unit test pins about twenty nestings; the theorems cover every state, the correspondence every generated shape.",
+    text="Lean 4. Proved about the executable model of the VM's scope machinery (Model/VM.lean: LexicalLookupSymbol with its three stages, LookupSymbolUntilFunction, the parent chain of closures, NewClosing, AddScope/AddFuncScope/RemoveScope/CreateClosure, and the whole mutual block Run/exec/CallResolved/Apply/Force around them), for all states, programs, histories and fuel: (1) shadowing_innermost_first / lookup_none_iff — a lookup returns the first scope binding the name along an explicit search list (live scopes of the current activation down to its function scope, then the captured scopes of the running closure and of its creators, then the template's captured scopes); (2) no_dynamic_leak / never_a_callers_local — the scope found is above the innermost live function boundary or captured, never a caller's local (a live scope below the boundary that was not captured); createClosure_captures / closure_captures_no_caller_local — CreateClosure stores exactly the part of the live stack above the boundary; (3) fresh_activation — AddScope/AddFuncScope push a scope id held by no stack, closure or lazy argument, with no variables, from the invariant WF (all ids below the table size) which every function of the VM preserves (wf_preserved, wf_reachable, by induction on fuel over the 13 mutually recursive functions and over the 8 mutually recursive generator functions); function code starts with AddFuncScope and a self tail call re-enters at instruction 0; (4) capture_by_reference / shared_update — closures created while the live stack is the same hold the same scope ids, an assignment through one is read by the other; (5) capture_outlives / pop_keeps_cells — no function of the VM removes a scope cell, changes a boundary flag, or changes the captured stack or parent of an existing closure; (6) lookup_sound — under the explicit simulation relation Sim between a VM state and a reference environment the two lookups agree; per instruction, preservation of Sim is proved for entering a scope only (sim_preserved_partial; SimPreservedFull stays a visible Prop); (7) Props/C03Sim.lean, on the fragment for which the C02 simulation proofs hold (fn/defn anywhere except inside call operands, closures capturing and assigning locals, functions as values, recursion, rest parameters, self tail calls, break/continue, lazy parameters and force, apply/map): lexical_scoping_on_fragment — the VM model computes what the reference evaluator (closure = code + frame pointer at creation, fresh frame per activation/let/loop, static-chain lookup) computes, value / error class / trace, for programs of every size — with the five clauses of the property as corollaries on program families parameterised by the values (free_variables_see_creation_site, closures_of_one_activation_share, fresh_variables_per_activation, captured_outlives_activation, tail_call_gets_fresh_scope); simX_of_relF — the relation Sim.RelF those proofs maintain implies Sim up to the order of bindings in a frame, so sim_preserved_on_fragment: after the whole code of any expression of the fragment (scopes left, def/set, closures made, calls, returns, tail calls, apply/map, lazy arguments) the states are related again and the lookups agree. The model is tied to the Go code by channel `scope`: histories of program texts against one interpreter, every name (ints, closures, makers, arrays of closures, loop counters, parameters, defn names) drawn from ONE pool of 2-3 names with a static type environment, 56 shape templates under colliding name assignments (among them six activation trees: every level of a nest of makers instantiated by several activations of the level above, leaves observed after their siblings exist), and an exhaustive small scope (all programs of up to three nested scope constructs let/letseq/call/defn/newScope/for/def-in-fn/self-tail-call over the names a b, with capture at every level, mutation after capture, observation from the innermost point and after everything returned); implementation vs VM model on class/value/trace/four stack depths, implementation vs reference evaluator on class/value/trace. A unit test pins about twenty nestings; the theorems cover every state, the correspondence every generated shape.",
     note="Trusted: Lean kernel; axioms propext/Classical.choice/Quot.sound. The theorems are about the hand-written model; it is tied to zygo/{environment,scopes,closing,vm,generator,expressions,stack}.go only by the `scope` (and C02's `eval`) correspondence, i.e. by differential testing. Model/Prim.lean (builtins on values) and the elaborator are shared by model and reference. Partial: per instruction, preservation of Sim is proved only for AddScope (SimPreservedFull is not proved). The end-to-end statement 'VM lookup = reference lookup after every expression, VM result = reference result' is a theorem on the proved fragment (Props/C03Sim.lean, resting on the 25 k lines of Proofs/Sim*.lean audited with it); outside it (fn/defn inside call operands, a self call in a directly compiled non-tail position, substitute, empty newScope: C02.CompileCorrectOutsideProved) leaving a scope, def/set, closure creation, call/return/tail call, apply/map, lazy arguments are held by the 3-way correspondence only. RelF gives Sim only up to the order of bindings inside a frame (SimX; simX_not_sim). Reachable is closed under whole texts and under exec/run/apply/force applied to reachable states, not under every intermediate state inside an instruction. The fix C03-01 test is syntactic: a name re-bound by a macro expansion or assigned from another function while the function is in a self-tail-call loop is not seen. Outside the modelled core: infix syntax, macros, packages, eval, hashes, floats.",
     technique="Lean 4 theorems (invariants by induction on fuel over the VM's mutual block and by structural induction over the generator) on an executable model; 3-way model/spec/implementation correspondence through the line protocol with a collision-directed generator and an exhaustive small scope",
     design_ref="DESIGN.md §7 C03, §13 (Lookup, Calls, Function prologue/epilogue)",
